@@ -90,14 +90,11 @@ func (m *Machine) rangeNext(it *rangeIter, i *ssa.Next) Value {
 			return Tuple{s.False, s.Const(64, 0), s.Const(32, 0)}
 		}
 		b := it.str.B[it.pos]
-		if !b.IsConst() {
-			// a symbolic byte ≥ 0x80 would start a multi-byte rune
-			if !m.Branch(s.ULt(b, s.Const(8, 0x80))) {
-				m.unsupported("range over string with symbolic non-ASCII byte")
-			}
+		if !b.IsConst() || !allConst(it.str.B[it.pos:min(it.pos+4, len(it.str.B))]) {
+			r, size := m.decodeRuneSym(it.str.B[it.pos:])
 			idx := it.pos
-			it.pos++
-			return Tuple{s.True, s.Const(64, uint64(idx)), s.ZExt(b, 32)}
+			it.pos += size
+			return Tuple{s.True, s.Const(64, uint64(idx)), r}
 		}
 		// concrete: decode UTF-8 over the concrete prefix
 		j := it.pos
@@ -213,4 +210,59 @@ func decodeRune(p []byte) (rune, int) {
 		return utf8.RuneError, 1
 	}
 	return utf8.DecodeRune(p)
+}
+
+func allConst(ts []*Term) bool {
+	for _, t := range ts {
+		if !t.IsConst() {
+			return false
+		}
+	}
+	return true
+}
+
+// decodeRuneSym decodes the first UTF-8 sequence of bs (symbolic bytes), forking on the byte classes.
+func (m *Machine) decodeRuneSym(bs []*Term) (*Term, int) {
+	s := m.S
+	c8 := func(v uint64) *Term { return s.Const(8, v) }
+	in := func(b *Term, lo, hi uint64) *Term { return s.BAnd(s.ULe(c8(lo), b), s.ULe(b, c8(hi))) }
+	bad := func() (*Term, int) { return s.Const(32, 0xFFFD), 1 }
+	low6 := func(b *Term) *Term { return s.ZExt(s.Extract(b, 5, 0), 32) }
+	b0 := bs[0]
+	if m.Branch(s.ULt(b0, c8(0x80))) {
+		return s.ZExt(b0, 32), 1
+	}
+	if m.Branch(in(b0, 0xC2, 0xDF)) {
+		if len(bs) < 2 || !m.Branch(in(bs[1], 0x80, 0xBF)) {
+			return bad()
+		}
+		r := s.Or(s.Shl(s.ZExt(s.Extract(b0, 4, 0), 32), s.Const(32, 6)), low6(bs[1]))
+		return r, 2
+	}
+	if m.Branch(in(b0, 0xE0, 0xEF)) {
+		if len(bs) < 3 {
+			return bad()
+		}
+		lo, hi := s.Ite(s.Eq(b0, c8(0xE0)), c8(0xA0), c8(0x80)), s.Ite(s.Eq(b0, c8(0xED)), c8(0x9F), c8(0xBF))
+		ok := s.BAnd(s.BAnd(s.ULe(lo, bs[1]), s.ULe(bs[1], hi)), in(bs[2], 0x80, 0xBF))
+		if !m.Branch(ok) {
+			return bad()
+		}
+		r := s.Or(s.Or(s.Shl(s.ZExt(s.Extract(b0, 3, 0), 32), s.Const(32, 12)), s.Shl(low6(bs[1]), s.Const(32, 6))), low6(bs[2]))
+		return r, 3
+	}
+	if m.Branch(in(b0, 0xF0, 0xF4)) {
+		if len(bs) < 4 {
+			return bad()
+		}
+		lo, hi := s.Ite(s.Eq(b0, c8(0xF0)), c8(0x90), c8(0x80)), s.Ite(s.Eq(b0, c8(0xF4)), c8(0x8F), c8(0xBF))
+		ok := s.BAnd(s.BAnd(s.BAnd(s.ULe(lo, bs[1]), s.ULe(bs[1], hi)), in(bs[2], 0x80, 0xBF)), in(bs[3], 0x80, 0xBF))
+		if !m.Branch(ok) {
+			return bad()
+		}
+		r := s.Or(s.Or(s.Or(s.Shl(s.ZExt(s.Extract(b0, 2, 0), 32), s.Const(32, 18)), s.Shl(low6(bs[1]), s.Const(32, 12))),
+			s.Shl(low6(bs[2]), s.Const(32, 6))), low6(bs[3]))
+		return r, 4
+	}
+	return bad()
 }
